@@ -84,7 +84,8 @@ def parseAction (f : Str) : Option Action :=
     | _, _ => none
 
 def parseApply (c : Nat) : Apply :=
-  if c = 111 then .ok else if c = 101 then .err else if c = 122 then .okEmpty else .absent
+  -- b: an error together with a value (a revert map after a partial apply); n: ErrNotFound - errors both
+  if c = 111 then .ok else if c = 101 || c = 98 || c = 110 then .err else if c = 122 then .okEmpty else .absent
 
 def encEff : Eff → String
   | .pub s p => "P@" ++ encField s ++ "@" ++ encField p
@@ -133,7 +134,8 @@ def parseReq (args : List Str) : Option Parsed :=
           hasAccess := kinds.contains 97, hasGet := kinds.contains 103, hasNew := kinds.contains 110,
           call := commaList call, auth := commaList auth, typ := num typ,
           applyChange := ap 0, applyAdd := ap 1, applyRemove := ap 2, applyCreate := ap 3, applyDelete := ap 4,
-          listeners := num ls }
+          listeners := num ls,
+          nfApply := (List.range 5).filter (fun i => apply.getD i 45 = 110) }
         let rin : ReqIn := {
           rtype := rt, rname := rname, method := method, found := found,
           params := (ps.toArray.qsort (fun a b => a.1 < b.1)).toList,
